@@ -387,6 +387,39 @@ theorem read_after_write_ordered_witness :
     judgeReadsOrd { cfg with rep := false } ops (obsRun { cfg with rep := false } (St.init (.lru {})) as)
       = some "store/read-after-write/superseded/wt/value" := by decide
 
+/-- what the harness prints after a segment, key lists as they are (unsorted: the clauses only ask
+    for membership, and `sortKeys` does not reduce under `decide`) -/
+def obsRaw (i : Nat) (s : St) (r : Option Res) : Obs := ⟨i, akeys s.cache, s.dirty, s.pol.tracked, r⟩
+
+/-- **the ordered clause is false of the write-back store** (model = code as it is; known finding
+    fixes/C16-writeback-overtaken-by-delete.known.md, witness corpus/C16/writeback-overtaken-by-delete.json):
+    capacity 1, `delete(0)` is issued; while its backing-store delete is in flight `put(0,1)` is issued
+    (dirty in the cache) and `put(1,2)` evicts key 0, whose value is written back synchronously; then
+    the delete lands on it, then the put of key 0 completes.  The put was issued after the delete and
+    completed after it, yet the `get(0)` issued afterwards finds nothing — the write never reaches the
+    backing store for good.  The schedule is admissible, the regular-register clause accepts the run
+    (put and delete overlap), the ordered clause rejects it with the signature of this cause. -/
+theorem read_after_write_ordered_writeback_false :
+    let cfg : Cfg := ⟨1, false, true, []⟩
+    let ops := [(0, OpK.del 0), (1, .put 0 1), (2, .put 1 2), (3, .get 0)]
+    let as := [Act.start 0 (.del 0) 0, .start 1 (.put 0 1) 0, .start 2 (.put 1 2) 0, .resume 0 0,
+               .resume 1 0, .resume 2 0, .start 3 (.get 0) 0, .resume 3 0]
+    lateOk [] as = true ∧
+    (run cfg (St.init (.lru {})) as).back = [] ∧
+    (obsRunG obsRaw cfg (St.init (.lru {})) as).getLast?.map (·.res) = some (some .none) ∧
+    judgeReads cfg ops (obsRunG obsRaw cfg (St.init (.lru {})) as) = none ∧
+    judgeReadsOrd cfg ops (obsRunG obsRaw cfg (St.init (.lru {})) as)
+      = some "store/read-after-write/superseded/wb/writeback-overtaken-by-earlier-delete" ∧
+    ¬ (∀ (ops : List (Nat × OpK)) (as : List Act), lateOk [] as = true →
+        judgeReadsOrd cfg ops (obsRunG obsRaw cfg (St.init (.lru {})) as) = none) := by
+  refine ⟨by decide, by decide, by decide, by decide, by decide, ?_⟩
+  intro h
+  have := h [(0, OpK.del 0), (1, .put 0 1), (2, .put 1 2), (3, .get 0)]
+    [Act.start 0 (.del 0) 0, .start 1 (.put 0 1) 0, .start 2 (.put 1 2) 0, .resume 0 0,
+     .resume 1 0, .resume 2 0, .start 3 (.get 0) 0, .resume 3 0] (by decide)
+  revert this
+  decide
+
 /-- `read_after_write`, proved part: when operations do not overlap (each runs all its segments
     before the next starts — `execOp`), the repaired store with any policy, capacity ≥ 1 and either
     write mode is a map: every `get` returns the value of the latest `put` of its key, nothing after
